@@ -306,7 +306,18 @@ fn eval(run: &Run, fx: &Arc<Fixture>, c: &Cfg) -> Verdict {
     if c.schedule.is_some() && std::env::var("VSCHED_TRACE").is_ok() {
         gix_features::verif_sched::TRACE.store(true, std::sync::atomic::Ordering::Relaxed);
     }
-    let ex: Explored = explore(c.bound, u64::MAX, Instant::now() + Duration::from_secs_f64(secs), c.schedule.clone(), move || body(&fx2, &live2, &cfg));
+    let deadline = Instant::now() + Duration::from_secs_f64(secs);
+    let ex: Explored = if c.schedule.is_none() && !run.quick() && c.bound >= 2 {
+        // big spaces: explore the subtrees below all 16-decision prefixes on 8 workers, each with a private objects directory
+        let _ = &live2;
+        crate::sched::explore_parallel(c.bound, 8, 16, deadline, |_w| {
+            let (fx3, cfg) = (fx2.clone(), cfg.clone());
+            let dir = vkit::scratch::Dir::new("c12live");
+            move || body(&fx3, dir.path(), &cfg)
+        })
+    } else {
+        explore(c.bound, u64::MAX, deadline, c.schedule.clone(), move || body(&fx2, &live2, &cfg))
+    };
     run.mc_transitions(ex.decisions);
     run.mc_validated(ex.executions);
     run.mc_states_bulk((0..ex.executions).map(|i| vkit::hash_of(&(c, i))));
